@@ -238,6 +238,10 @@ class LoopCtx:
             elif h.kind == 'slist':
                 self.length = h.meta['len']
                 self.item_fn = lambda k, s, h=h: h.meta['elem'](k)
+            elif h.kind == 'sentinel_iter':
+                self.length = None
+                self.item_fn = None
+                self.ghost['sentinel_iter'] = it
             elif h.kind == 'obj' and self.engine.repo.find_method(h.cls, '__next__') is not None:
                 # iterator protocol: the guard is a call of __next__ (StopIteration ends the loop)
                 self.length = None
@@ -316,6 +320,21 @@ class LoopCtx:
 
     def for_guard(self, st):
         from .engine import ok, rs
+        if self.length is None and 'sentinel_iter' in self.ghost:
+            h = st.obj(self.ghost['sentinel_iter'])
+            out = []
+            for r in self.engine.call_value(h.meta['fn'], [], {}, st, self.node.lineno):
+                if r.kind == 'raise':
+                    out.append(r)
+                    continue
+                eq = self.engine.value_eq(r.val, h.meta['sentinel'], r.st)
+                for is_end, s2 in self.engine.branch(r.st, eq):
+                    if is_end:
+                        out.append(ok(False, s2))
+                    else:
+                        s2.ghost['$next_item'] = r.val
+                        out.append(ok(True, s2))
+            return out
         if self.length is None:
             it = self.ghost['iterator']
             fi = self.engine.repo.find_method(st.obj(it).cls, '__next__')
